@@ -887,6 +887,21 @@ func (e *c01Env) signatureList(caseNo *int, foreign gen.KeyPair) {
 		}
 		return b
 	}
+	// signature values that cannot even be decoded (not base64 / not hexadecimal), alone and in pairs
+	for _, bad := range []string{"=", "AAA", "*** not a signature ***", "0", "zz", "\u00e9"} {
+		bad := bad
+		muts = append(muts,
+			sigMut{fmt.Sprintf("k1-undecodable-signature-%q", bad), func(s []any) ([]any, bool, bool) {
+				a := ent(s, 0)
+				a["sig"] = bad
+				return []any{a, s[1]}, false, true
+			}},
+			sigMut{fmt.Sprintf("k1-two-undecodable-signatures-%q", bad), func(s []any) ([]any, bool, bool) {
+				a, b := ent(s, 0), ent(s, 0)
+				a["sig"], b["sig"] = bad, bad+bad
+				return []any{a, s[1], b}, false, true
+			}})
+	}
 	muts = append(muts,
 		sigMut{"k1-corrupt-then-short-junk", func(s []any) ([]any, bool, bool) {
 			a := ent(s, 0)
@@ -1054,7 +1069,7 @@ func init() {
 	core.Register(&core.Property{
 		ID:    "C01",
 		Level: "exploration",
-		Rule: "for both wrappers x both entry points (the caller's step name alternating between empty and non-empty): (A) all 16x16 (signer subset, verifier subset) pairs over 4 keys of mixed type (Ed25519, ECDSA P-256, RSA-2048, ECDSA P-384) + nil map; (B) every single-point alteration (edit/replace/delete/insert/reorder at every JSON node; for every string also the alterations a normalising comparison would miss: LF->CRLF, LF->CR, leading/trailing blank, trailing newline, letter case) of the signed layout in the dumped file, reloaded with LoadMetadata, and in-memory alterations of Metablock.Signed; (C) alterations of the signature list (drop, swap ids, duplicate, one key's signature repeated in place of the other key's, replay of an older version, corrupt first/middle/last character, truncate, empty, case variants, copied signatures, several entries under one key id: corrupt + short junk, old-version + short junk, two corrupt, corrupt then valid) under 3 verifier sets; (D) alterations of the supplied key set (non-signer added, right id with foreign material, wrong type, empty, zero key, public parts the crypto code cannot use - wrong length, other key type, undecodable -, key objects whose certificate field belongs to another key than their public part); (E) one authentic metadata object verified four times with different parameter values (the inspection's marker name carries the value of the call); (F) files carrying a forged second copy of the signed part under another spelling of the member name (payload/Payload/PAYLOAD, signed/Signed/SIGNED, either order): the forged copy's inspection must never run; (G) legacy files whose signed part repeats the members rootcas and steps - forged copies in front of / behind the genuine ones that would admit an attacker's certificate functionary, whose link replaces the honest one.  An authentic metadata object that was verified and accepted and whose content is then replaced in memory (on the object, on a copy of it, through SetPayload) must be rejected by the next verification." +
+		Rule: "for both wrappers x both entry points (the caller's step name alternating between empty and non-empty): (A) all 16x16 (signer subset, verifier subset) pairs over 4 keys of mixed type (Ed25519, ECDSA P-256, RSA-2048, ECDSA P-384) + nil map; (B) every single-point alteration (edit/replace/delete/insert/reorder at every JSON node; for every string also the alterations a normalising comparison would miss: LF->CRLF, LF->CR, leading/trailing blank, trailing newline, letter case) of the signed layout in the dumped file, reloaded with LoadMetadata, and in-memory alterations of Metablock.Signed; (C) alterations of the signature list (drop, swap ids, duplicate, one key's signature repeated in place of the other key's, replay of an older version, corrupt first/middle/last character, truncate, empty, values that cannot be decoded at all (alone and in pairs), case variants, copied signatures, several entries under one key id: corrupt + short junk, old-version + short junk, two corrupt, corrupt then valid) under 3 verifier sets; (D) alterations of the supplied key set (non-signer added, right id with foreign material, wrong type, empty, zero key, public parts the crypto code cannot use - wrong length, other key type, undecodable -, key objects whose certificate field belongs to another key than their public part); (E) one authentic metadata object verified four times with different parameter values (the inspection's marker name carries the value of the call); (F) files carrying a forged second copy of the signed part under another spelling of the member name (payload/Payload/PAYLOAD, signed/Signed/SIGNED, either order): the forged copy's inspection must never run; (G) legacy files whose signed part repeats the members rootcas and steps - forged copies in front of / behind the genuine ones that would admit an attacker's certificate functionary, whose link replaces the honest one.  An authentic metadata object that was verified and accepted and whose content is then replaced in memory (on the object, on a copy of it, through SetPayload) must be rejected by the next verification." +
 			"Oracle = ground truth by construction (which key signed which content version) + marker files of the inspection command + hook-event trace automaton. non-trivial = the call reached verify_entry; distinct = (wrapper, entry point, case family, |S|, |V|, relation / alteration kind + JSON path class)",
 		Assumptions: []string{
 			"acceptance of authentic controls is required only as an observation floor (the property is an 'only if'); a rejected control is counted as inconclusive",
